@@ -30,6 +30,7 @@ Operations outside that theorem, and why:
 The D2 shape (no drain) is kept as `d2_regression_counterexample`: the theorem is false for it.
 -/
 import KafkaVerif.Lemmas.ConnOps
+import KafkaVerif.Lemmas.ConnLocal
 import KafkaVerif.Model.ConnSpecs
 import KafkaVerif.Spec.ConnFrames
 
@@ -113,6 +114,23 @@ theorem next_op_as_fresh (o : OpSpec) (v : Nat) (topic : Bytes) (c : Conn) (hdr 
   rcases aligned_or_closed o v topic c hdr body rest hgood hclose hopen hstream hlen hsize hid with h | h
   · rw [h.2]
   · rw [h.1] at hnf; cases hnf
+
+/-- **no byte of another response is ever looked at**: for EVERY operation (good or not), every version and every
+body, the result of an exchange is a function of the bytes of its own frame alone, and whatever follows the frame on
+the stream is still there, untouched, after whatever part of the frame was left unread.  (Locality of every parser
+program: `runSteps_local`, by the same mutual induction as conservation.) -/
+theorem result_depends_only_on_frame (o : OpSpec) (v : Nat) (topic : Bytes) (c : Conn) (hdr body rest : Bytes)
+    (hopen : c.closed = false)
+    (hstream : c.stream = hdr ++ body ++ rest) (hlen : hdr.length = 8)
+    (hsize : beInt (hdr.take 4) = body.length + 4) (hid : beInt (hdr.drop 4) = c.nextId) :
+    (connDo o v topic c).1 = (opRead o v topic ⟨body, body.length⟩).1 ∧
+    (connDo o v topic c).2.stream = (opRead o v topic ⟨body, body.length⟩).2.inp ++ rest := by
+  have hw := wait_ok c hdr body rest hstream hlen hsize hid
+  have hl := opRead_local o v topic rest ⟨body, body.length⟩ (by simp [Enough])
+  simp only [ext] at hl
+  unfold connDo
+  simp only [hopen, Bool.false_eq_true, ↓reduceIte, hw, hl]
+  exact ⟨trivial, trivial⟩
 
 /-- after a transport / framing error the Conn is closed and every later operation fails, forever -/
 theorem closed_stays_failed (o : OpSpec) (v : Nat) (topic : Bytes) (c : Conn) (h : c.closed = true) :
